@@ -200,6 +200,9 @@ def seeds(R, rng, tier):
     d = os.path.join(impl.scratch(), "c08s")
     os.makedirs(os.path.join(d, "pkg", "sub"), exist_ok=True)
     ex = sorted(glob.glob(os.path.join(core.REPO, "examples", "*.py")))
+    if tier == "quick":
+        # examples/long_set.py costs 7 s per scan and this scenario scans the directory ~50 times; the thorough tier keeps it
+        ex = [f for f in ex if os.path.getsize(f) < 20000]
     for i, f in enumerate(rng.sample(ex, 10 if tier == "quick" else 40)):
         tgt = os.path.join(d, "pkg", "sub" if i % 2 else "", os.path.basename(f))
         open(tgt, "wb").write(open(f, "rb").read())
